@@ -535,7 +535,7 @@ PROPS["C10"] = {
             "the owner incorporates it with add_role under the top-level targets or, after sign_targets_editor + "
             "change_delegated_targets, under another role which is then re-signed with its own keys; in half of these programs "
             "the holder publishes an update (genuine and newer / under-signed / wrong keys / older version) incorporated with "
-            "update_delegated_targets; the owner signs with an adequate or an inadequate key set, or with a version / expiration "
+            "update_delegated_targets; in a fifth of the programs with two or more roles the last role takes the name of an earlier one (under the same parent or elsewhere in the tree); the owner signs with an adequate or an inadequate key set, or with a version / expiration "
             "missing. If the editor reports success: write, publish every listed target (copy or symlink), load with a fresh "
             "client, compare versions, every role's targets (length, digest), the delegation tree (names, key ids, thresholds, "
             "versions), download every target, and compare every snapshot / timestamp entry with the written file (length, "
@@ -546,7 +546,7 @@ PROPS["C10"] = {
                    "(signRole_none_iff); update_delegated_targets replaces a role only by metadata that meets the delegating "
                    "role's threshold and is not older (update_checked); add_role (after the repair) grafts only metadata a "
                    "threshold of the registered keys signed, which the client's identical check then accepts "
-                   "(add_role_checked); the unrepaired add_role is refuted by a witness. Correspondence: the outcome of every "
+                   "(add_role_checked); the unrepaired add_role is refuted by a witness. No client ever loads a tree that holds a role name twice (duplicate_role_names_never_load, via Proofs/ClientNames.lean: the names of a loaded tree are pairwise distinct), so sign (after the repair) refuses such a tree. Correspondence: the outcome of every "
                    "step of the program, whether a repository is published, and everything a client sees of it, vs the model; "
                    "the property is evaluated directly (published => loads, describes its files, every listed target "
                    "downloads byte-identical).",
